@@ -1,6 +1,6 @@
 """Run checks against the independently written breaking changes under /verif/seeded/<name>/.
 
-    python -m vf.tools.seeded [name ...] [--tier quick|thorough] [--all-checks]
+    python -m vf.tools.seeded [name ...] [--tier quick|thorough] [--all-checks] [--record] [--jobs N]
 
 For each seeded change: copy /repo's tree to a scratch directory, apply patch.diff there, confirm the
 demonstration (demo.py exits 1 on the changed copy and 0 on /repo), run the property's check (and, with
@@ -41,9 +41,74 @@ def run_check(prop, tree, tier):
     return res.returncode, time.time() - t0, keys
 
 
+def evaluate(args):
+    name, tier, all_checks, record = args
+    base = os.path.join(VERIF, 'seeded')
+    d = os.path.join(base, name)
+    meta = json.load(open(os.path.join(d, 'meta.json')))
+    prop = meta['property']
+    out = []
+    try:
+        tree = scratch_copy(os.path.join(d, 'patch.diff'))
+    except RuntimeError as exc:
+        return name, ['%-14s %s PATCH-ERROR %s' % (name, prop, exc)], None
+    try:
+        demo = os.path.join(d, 'demo.py')
+        r1 = subprocess.run(['/venv/bin/python', demo, tree], capture_output=True, text=True, timeout=300)
+        r0 = subprocess.run(['/venv/bin/python', demo, REPO], capture_output=True, text=True, timeout=300)
+        tests = subprocess.run(['/venv/bin/python', '-m', 'pytest', '-q', '-p', 'no:cacheprovider',
+                                'tests/test_pdu.py', 'tests/test_dimsemessages.py'], cwd=tree,
+                               capture_output=True, text=True)
+        line = (tests.stdout.strip().splitlines() or ['?'])[-1]
+        out.append('%-14s %s demo(changed)=%d demo(repo)=%d tests: %s' % (name, prop, r1.returncode, r0.returncode, line))
+        props = ALL if all_checks else [prop] + [p for p in meta.get('also_run', []) if p != prop]
+        checks = []
+        for p in props:
+            rc, dt, keys = run_check(p, tree, tier)
+            verdict = {0: 'quiet', 1: 'VIOLATION', 2: 'HARNESS-ERROR'}.get(rc, 'rc=%d' % rc)
+            out.append('    %s %-9s %-13s (%.0fs) %s' % (p, tier, verdict, dt, keys[0] if keys else ''))
+            checks.append({'check': p, 'tier': tier, 'verdict': verdict, 'seconds': int(dt),
+                           'first_key': keys[0] if keys else ''})
+        verified = {'applied_to': 'scratch copy of /repo (never /repo itself)', 'stable_tests': line,
+                    'demo_exit_changed': r1.returncode, 'demo_exit_unchanged': r0.returncode, 'checks': checks}
+        if record:
+            meta['verified'] = verified
+            with open(os.path.join(d, 'meta.json'), 'w') as fh:
+                json.dump(meta, fh, indent=1)
+        return name, out, verified
+    finally:
+        shutil.rmtree(tree, ignore_errors=True)
+
+
+def write_index():
+    base = os.path.join(VERIF, 'seeded')
+    lines = ['# Seeded breaking changes (written by sub-agents that saw only the property text)', '',
+             'Each directory holds patch.diff (against the /repo tree at the time; rebased by hand where a later fix '
+             'touched the same lines), demo.py (exit 1 on the changed tree, 0 on /repo), meta.json.',
+             'Verified by `python -m vf.tools.seeded --record`: patch applied to a scratch copy, the 70 stable tests '
+             'pass, demo exit codes, verdict of the quick tier of the listed checks.', '',
+             '| seed | property | what it does | needs | caught by | quiet | note |', '|---|---|---|---|---|---|---|']
+    for name in sorted(os.listdir(base)):
+        mp = os.path.join(base, name, 'meta.json')
+        if not os.path.exists(mp):
+            continue
+        m = json.load(open(mp))
+        v = m.get('verified') or {}
+        caught = ', '.join('%s %s (%ds)' % (c['check'], c['tier'], c['seconds']) for c in v.get('checks', [])
+                           if c['verdict'] == 'VIOLATION')
+        quiet = ', '.join(c['check'] for c in v.get('checks', []) if c['verdict'] != 'VIOLATION')
+        cell = lambda t: str(t or '').replace('|', '/').replace('\n', ' ')
+        lines.append('| %s | %s | %s | %s | %s | %s | %s |' % (name, m['property'], cell(m.get('summary'))[:400],
+                                                            cell(m.get('needs'))[:300], caught or '**none**', quiet,
+                                                            cell(m.get('note'))))
+    with open(os.path.join(base, 'INDEX.md'), 'w') as fh:
+        fh.write('\n'.join(lines) + '\n')
+
+
 def main(argv):
     tier = 'quick'
-    all_checks = False
+    all_checks = record = False
+    jobs = 1
     names = []
     it = iter(argv)
     for a in it:
@@ -51,37 +116,30 @@ def main(argv):
             tier = next(it)
         elif a == '--all-checks':
             all_checks = True
+        elif a == '--record':
+            record = True
+        elif a == '--jobs':
+            jobs = int(next(it))
         else:
             names.append(a)
     base = os.path.join(VERIF, 'seeded')
     names = names or sorted(d for d in os.listdir(base) if os.path.isdir(os.path.join(base, d)))
-    rows = []
-    for name in names:
-        d = os.path.join(base, name)
-        meta = json.load(open(os.path.join(d, 'meta.json')))
-        prop = meta['property']
-        try:
-            tree = scratch_copy(os.path.join(d, 'patch.diff'))
-        except RuntimeError as exc:
-            print('%-14s %s PATCH-ERROR %s' % (name, prop, exc))
-            continue
-        try:
-            demo = os.path.join(d, 'demo.py')
-            r1 = subprocess.run(['/venv/bin/python', demo, tree], capture_output=True, text=True, timeout=300)
-            r0 = subprocess.run(['/venv/bin/python', demo, REPO], capture_output=True, text=True, timeout=300)
-            tests = subprocess.run(['/venv/bin/python', '-m', 'pytest', '-q', '-p', 'no:cacheprovider',
-                                    'tests/test_pdu.py', 'tests/test_dimsemessages.py'], cwd=tree,
-                                   capture_output=True, text=True)
-            line = (tests.stdout.strip().splitlines() or ['?'])[-1]
-            print('%-14s %s demo(changed)=%d demo(repo)=%d tests: %s' % (name, prop, r1.returncode, r0.returncode, line))
-            props = ALL if all_checks else [prop] + [p for p in meta.get('also_run', []) if p != prop]
-            for p in props:
-                rc, dt, keys = run_check(p, tree, tier)
-                verdict = {0: 'quiet', 1: 'VIOLATION', 2: 'HARNESS-ERROR'}.get(rc, 'rc=%d' % rc)
-                print('    %s %-9s %-13s (%.0fs) %s' % (p, tier, verdict, dt, keys[0] if keys else ''), flush=True)
-                rows.append((name, p, verdict))
-        finally:
-            shutil.rmtree(tree, ignore_errors=True)
+    work = [(n, tier, all_checks, record) for n in names]
+    missed = []
+    if jobs > 1:
+        import multiprocessing
+        with multiprocessing.Pool(jobs) as pool:
+            results = pool.imap(evaluate, work)
+            results = list(results)
+    else:
+        results = map(evaluate, work)
+    for name, out, verified in results:
+        print('\n'.join(out), flush=True)
+        if verified is None or not any(c['verdict'] == 'VIOLATION' for c in verified['checks']):
+            missed.append(name)
+    print('%d seeded changes evaluated, not caught: %s' % (len(names), ', '.join(missed) or 'none'))
+    if record:
+        write_index()
     return 0
 
 
